@@ -22,6 +22,11 @@ CHECKS = {
     note="Proved for every oracle: declined_untouched, solved_named. Kept visible but not proved (decided by correspondence+oracles only): 'solved rows have an empty issue' for mcs-based rows and 'carbon-deficit rows are declined' (both need facts about impute_reaction that the pipeline-level model treats as a black box). Trusted: Coq kernel+vm_compute, translator, recorders (module-attribute wrappers, n_jobs=1), RDKit for the oracles.",
     technique="Coq invariant proof over an 11-stage pipeline model + recorded-oracle replay of real batches inside Coq",
     design="7/C03"),
+ "C12": dict(
+    text="Machine-checked proof (Coq) over Model/Cache.v (the cache logic of Balancer.rebalance / CacheManager for an abstract pipeline, hash and configuration): for EVERY pipeline function, every injective hash of (configuration, batch) and EVERY history of completed runs, runs killed while an entry is written (leaving nothing, an unreadable file = empty / any truncated prefix / garbage, or the complete entry) and foreign non-result files, a completed cached run returns exactly the per-batch results of the uncached run, lost batches included (invariant: every stored result is the pipeline's result for the pair it is filed under; induction over the history). Instantiated with the pipeline model (configuration = threshold). The pinned tree violated the property twice (key ignored the configuration; unreadable entry raised out of rebalance; in-place writes): repaired in /repo by one fix: commit, the old design is kept as two refutation theorems. Correspondence: histories of real runs over a shared temp cache directory with overlapping inputs, varying threshold / batch size / column name / input form and damaged entries, each compared with the uncached run; every proper prefix of a real entry (thorough) as crash point; observed hit/miss/lost sequences replayed through the model inside Coq with the real SHA keys.",
+    note="Oracle assumptions: SHA-256 injective on the pairs of a history (checked: distinct pairs, distinct keys), pipeline a function of (configuration, batch) (C06), JSON round-trips public columns (checked on every hit). Process kills are modelled by what they can leave on disk (os.replace atomicity is POSIX's), not exercised by killing processes. Trusted: Coq kernel+vm_compute, harness, file system.",
+    technique="Coq invariant proof by induction over run/crash histories + history-based differential runs against the uncached implementation",
+    design="7/C12"),
  "C13": dict(
     text="Machine-checked proof (Coq): for every oracle and input, an mcs-based row of a completed run carries the confidence, is solved exactly when its confidence key reaches the threshold key and otherwise carries the threshold message; for two thresholds on the same input the confidences, reactions, methods and rules coincide, all rows of other methods and declined rows are identical, and raising the threshold never solves an unsolved row. Correspondence: real runs at thresholds 0, 0.5, 1 and at observed confidences and both float neighbours, replayed in the model with float64 order keys; cross-threshold oracle on the real rows.",
     note="Confidence in [0,1] is the scoring model's contract (oracle assumption, checked on every scored row). Floats enter the model only as order-preserving integer keys. Trusted: Coq kernel+vm_compute, recorders, numpy/xgboost as oracle.",
